@@ -25,7 +25,8 @@ def pack(tags, encoding='latin_1', cfgname=None):
         carriers = CARRIERS
         if cfgname in ('de62-plain', 'reconfigured'):
             import copy
-            cfgs = copy.deepcopy(M().config.config['bit_config'])
+            from . import packaged
+            cfgs = packaged.bit_config_copy()
             if cfgname == 'reconfigured':
                 # the configuration object has been used before, with DE62 still a carrier, and is then edited in place
                 iso.dumps({'MTI': '1240', 'PDS0001': 'A' * 600, 'PDS0002': 'B' * 600}, iso_config=cfgs)
